@@ -607,58 +607,48 @@ func c06r7(p *Program, r *Report) {
 	if fi == nil {
 		return
 	}
-	g := p.GraphOf(fi)
+	g := p.GraphOfInl(fi)
 	info := g.Info
-	// the variable holding c.calls[...]
+	// the statement that takes the call out of c.calls (in recv or in a helper), and recv's variable that holds it
+	lookups := map[ast.Node]bool{}
 	var callObj types.Object
-	ast.Inspect(fi.Decl.Body, func(n ast.Node) bool {
-		if as, ok := n.(*ast.AssignStmt); ok && len(as.Rhs) == 1 {
-			if ix, ok := ast.Unparen(as.Rhs[0]).(*ast.IndexExpr); ok && p.isField(info, ix.X, "Conn", "calls") {
-				if id, ok := as.Lhs[0].(*ast.Ident); ok {
-					callObj = info.Defs[id]
-					if callObj == nil {
-						callObj = info.Uses[id]
-					}
-				}
-			}
-		}
-		return true
-	})
-	if callObj == nil {
-		// the lookup may live in a private helper: the call object is the variable receiving a *callReq result
-		for _, h := range p.privateCallees(fi) {
-			usesCalls := false
-			ast.Inspect(h.Decl.Body, func(n ast.Node) bool {
-				if ix, ok := n.(*ast.IndexExpr); ok && p.isField(h.Pkg.TypesInfo, ix.X, "Conn", "calls") {
-					usesCalls = true
-				}
-				return true
-			})
-			if !usesCalls {
-				continue
-			}
-			ast.Inspect(fi.Decl.Body, func(n ast.Node) bool {
-				as, ok := n.(*ast.AssignStmt)
-				if !ok || len(as.Rhs) != 1 {
-					return true
-				}
-				if c, ok := ast.Unparen(as.Rhs[0]).(*ast.CallExpr); ok {
-					if fn := calleeOf(info, c); fn != nil && p.FuncOf(fn) == h {
-						for _, l := range as.Lhs {
-							if id, ok := l.(*ast.Ident); ok && typeNameOf(info.TypeOf(id)) == "callReq" {
-								callObj = info.Defs[id]
-								if callObj == nil {
-									callObj = info.Uses[id]
-								}
-							}
+	for _, u := range g.Units() {
+		ast.Inspect(u.Decl.Body, func(n ast.Node) bool {
+			if as, ok := n.(*ast.AssignStmt); ok && len(as.Rhs) == 1 {
+				if ix, ok := ast.Unparen(as.Rhs[0]).(*ast.IndexExpr); ok && p.isField(info, ix.X, "Conn", "calls") {
+					lookups[as] = true
+					if id, ok := as.Lhs[0].(*ast.Ident); ok && u == fi {
+						callObj = info.Defs[id]
+						if callObj == nil {
+							callObj = info.Uses[id]
 						}
 					}
 				}
-				return true
-			})
-		}
+			}
+			return true
+		})
 	}
 	if callObj == nil {
+		// the lookup lives in a helper: recv's variable is the *callReq it receives from a call
+		ast.Inspect(fi.Decl.Body, func(n ast.Node) bool {
+			as, ok := n.(*ast.AssignStmt)
+			if !ok || len(as.Rhs) != 1 || callObj != nil {
+				return true
+			}
+			if _, isCall := ast.Unparen(as.Rhs[0]).(*ast.CallExpr); isCall {
+				for _, l := range as.Lhs {
+					if id, ok := l.(*ast.Ident); ok && typeNameOf(info.TypeOf(id)) == "callReq" {
+						callObj = info.Defs[id]
+						if callObj == nil {
+							callObj = info.Uses[id]
+						}
+					}
+				}
+			}
+			return true
+		})
+	}
+	if callObj == nil || len(lookups) == 0 {
 		r.Unresolved("recv does not look a call up in c.calls")
 		return
 	}
@@ -666,12 +656,8 @@ func c06r7(p *Program, r *Report) {
 	// "lookup": the statement that takes the call out of c.calls has been executed
 	ef := g.Events(func(st Step) []string {
 		evs := base(st)
-		if st.Kind == StNode {
-			for _, l := range assignedLHS(st.Node) {
-				if isIdentOf(info, l, callObj) {
-					evs = append(evs, "lookup")
-				}
-			}
+		if st.Kind == StNode && lookups[st.Node] {
+			evs = append(evs, "lookup")
 		}
 		return evs
 	})
